@@ -231,7 +231,10 @@ PROPS = {
              "fragment, several '#', non-ASCII, percent escapes, keys that are prefixes/case variants of rule parameters; all request types). "
              "evaluation = engine rewritten_url vs the independent rewriter applied with the parameters of the matching rules, plus the "
              "oracle-free monitors: output is a deletion of whole query pieces, differs from the input, never reported together with an "
-             "important block; the same requests on a live Blocker before and after an explicit optimize() must give the engine's rewrite. "
+             "important block; the same requests on a live Blocker before and after an explicit optimize(), on a Blocker that received the rules one "
+             "add_filter at a time, and through check_network_request_subset under the other flag combinations must give the engine's rewrite; "
+             "$badfilter is read at text level (a line `R,badfilter` cancels the lines that spell R up to option order and redundant type options) "
+             "and every removed parameter must be named by a surviving rule whose type options, read from its text, admit the request type. "
              "non-trivial = >= 1 matching removeparam rule and a non-empty query; distinct = hash of (rules, request).",
         assumptions=["matching of the removeparam rules themselves is the per-rule matcher's (C02/C03)"],
         floors=(300_000, 100_000, 6_000_000, 400_000),
